@@ -3,6 +3,7 @@
 //   verifydriver create <schema-name> <dir>
 //   verifydriver verify <list.ndjson> <out.ndjson>      line: {"dir": "...", ...any tag fields...}
 //   verifydriver fromscripts <list.ndjson> <out.ndjson> line: {"scripts": "<dir with m.db.sql ...>", "dir": "<empty dir>", ...}
+//   verifydriver dump <list.ndjson> <out.ndjson>        complete schema + version numbers of reference / created libraries (C12)
 //
 // The driver asserts nothing; TLC judges the records (TraceVerify.tla).
 #include <djinterop/djinterop.hpp>
@@ -36,6 +37,81 @@ int main(int argc, char** argv)
         return 2;
     vh::g_trace_fd = fileno(out);
     std::string line;
+    if (mode == "dump")
+    {
+        // C12: the complete schema (every row of sqlite_master of every attached database file, with its SQL text) and the
+        // version numbers of a reference library (hydrated from its scripts) or of a freshly created one (on disk or
+        // temporary), read through the plain SQLite C API on the library's own connection.
+        //   line: {"kind": "ref", "scripts": "<dir>", "dir": "<empty dir>", ...} | {"kind": "created", "schema": "<name>", "form": "disk"|"mem", "dir": "<dir>", ...}
+        while (std::getline(in, line))
+        {
+            if (line.empty())
+                continue;
+            json r = json::parse(line);
+            std::string dir = r.value("dir", "");
+            std::optional<dj::database> db;
+            dj::engine::engine_schema loaded = dj::engine::engine_schema::schema_1_7_1;
+            shim::reset_dbs();
+            bool is_ref = r.at("kind") == "ref";
+            auto oc = vh::guarded("make", [&] {
+                if (is_ref)
+                {
+                    fs::create_directories(dir);
+                    db = dj::engine::create_database_from_scripts(dir, r.at("scripts").get<std::string>(), loaded);
+                }
+                else if (r.at("form") == "disk")
+                    db = dj::engine::create_database(dir, vh::schema_by_name(r.at("schema").get<std::string>()));
+                else
+                    db = dj::engine::create_temporary_database(vh::schema_by_name(r.at("schema").get<std::string>()));
+            });
+            r["load"] = oc.ok ? "ok" : "throw";
+            r["load_ex"] = oc.ex;
+            r["loaded"] = oc.ok && is_ref ? vh::name_of(loaded) : std::string();
+            r["objs"] = json::array();
+            r["info"] = json::array();
+            r["verify"] = "none";
+            r["version_name"] = "";
+            r["reloaded"] = "";
+            if (oc.ok)
+            {
+                vh::raw_reader rr{shim::last_db()};
+                json dbs = rr.rows("PRAGMA database_list", "itt");
+                json objs = json::array(), info = json::array();
+                for (auto& d : dbs)
+                {
+                    std::string name = d[1].get<std::string>();
+                    json rows = rr.rows("SELECT type, name, tbl_name, sql FROM \"" + name + "\".sqlite_master ORDER BY type, name", "tttt");
+                    if (!rows.is_array())
+                        continue;
+                    for (auto& x : rows)
+                        objs.push_back(json::array({name, x[0], x[1], x[2], x[3]}));
+                    json iv = rr.rows("SELECT schemaVersionMajor, schemaVersionMinor, schemaVersionPatch FROM \"" + name + "\".Information", "iii");
+                    if (iv.is_array())
+                        for (auto& x : iv)
+                            info.push_back(json::array({name, x[0], x[1], x[2]}));
+                }
+                r["objs"] = objs;
+                r["info"] = info;
+                auto ov = vh::guarded("verify", [&] { db->verify(); });
+                r["verify"] = ov.ok ? "ok" : ov.ex;
+                auto on = vh::guarded("version_name", [&] { r["version_name"] = db->version_name(); });
+                (void)on;
+                db.reset();
+                if (!is_ref && r.at("form") == "disk")
+                {
+                    dj::engine::engine_schema l2 = dj::engine::engine_schema::schema_1_7_1;
+                    if (r.at("schema") == "1.7.1")
+                        l2 = dj::engine::engine_schema::schema_1_6_0;
+                    auto ol = vh::guarded("load_database", [&] { db = dj::engine::load_database(dir, l2); });
+                    r["reloaded"] = ol.ok ? vh::name_of(l2) : ("throw " + ol.ex);
+                    db.reset();
+                }
+            }
+            vh::emit(r);
+        }
+        fclose(out);
+        return 0;
+    }
     while (std::getline(in, line))
     {
         if (line.empty())
